@@ -42,33 +42,61 @@ static Matrix filled(long r, long c)
 static void use(const Matrix& M) { sink = M.Rows() + M.Columns() + (M.Rows() > 0 && M.Columns() > 0 ? M[0][0] : 0.0); }
 static void use(const Vector& v) { sink = v.Size() + (v.Size() > 0 ? v[0] : 0.0); }
 
-// one request on an Interpolation object: loc x | ev x | der x n | int a b | min a b | max a b | glob
-static void interp_call(Interpolation& I, vh::Reader& r)
+// one request on an Interpolation object: loc x | ev x | der x n | int a b | min a b | max a b | glob | save n
+struct ICall
 {
-	std::string w = r.word();
-	if(w == "loc")
-		sink = I.Locate(r.num());
-	else if(w == "ev")
-		sink = I(r.num());
-	else if(w == "der")
+	std::string w;
+	double x = 0.0, y = 0.0;
+	long n = 0;
+};
+static ICall read_icall(vh::Reader& r)
+{
+	ICall c;
+	c.w = r.word();
+	if(c.w == "loc" || c.w == "ev")
+		c.x = r.num();
+	else if(c.w == "der")
 	{
-		double x = r.num();
-		long n	 = r.integer();
-		sink	 = I.Derivative(x, (unsigned int) n);
+		c.x = r.num();
+		c.n = r.integer();
 	}
-	else if(w == "int" || w == "min" || w == "max")
+	else if(c.w == "int" || c.w == "min" || c.w == "max")
 	{
-		double a = r.num(), b = r.num();
-		sink = (w == "int") ? I.Integrate(a, b) : (w == "min" ? I.Local_Minimum(a, b) : I.Local_Maximum(a, b));
+		c.x = r.num();
+		c.y = r.num();
 	}
-	else if(w == "glob")
-		sink = I.Global_Minimum() + I.Global_Maximum();
-	else
+	else if(c.w == "save")
+		c.n = r.integer();
+	else if(c.w != "glob")
 	{
 		fprintf(stderr, "harness: unknown interpolation request\n");
 		_exit(77);
 	}
+	return c;
 }
+static double interp_call(Interpolation& I, const ICall& c)
+{
+	if(c.w == "loc")
+		return I.Locate(c.x);
+	else if(c.w == "ev")
+		return I(c.x);
+	else if(c.w == "der")
+		return I.Derivative(c.x, (unsigned int) c.n);
+	else if(c.w == "int")
+		return I.Integrate(c.x, c.y);
+	else if(c.w == "min")
+		return I.Local_Minimum(c.x, c.y);
+	else if(c.w == "max")
+		return I.Local_Maximum(c.x, c.y);
+	else if(c.w == "save")
+	{
+		I.Save_Function(workfile, (unsigned int) c.n);
+		return 0.0;
+	}
+	return I.Global_Minimum() + I.Global_Maximum();
+}
+// same answer: bit-identical, or both NaN
+static bool same_answer(double a, double b) { return (std::isnan(a) && std::isnan(b)) || (a == b && std::signbit(a) == std::signbit(b)); }
 
 static void handler(vh::Reader& r, vh::Out& o)
 {
@@ -492,12 +520,30 @@ static void handler(vh::Reader& r, vh::Out& o)
 			I.reset(new Interpolation(tb, xd, fd));
 		}
 		std::vector<double> dom = I->domain;
-		long n					= r.integer();
+		// an untouched copy: every request is answered a second time by an object that has served no request before
+		const Interpolation pristine(*I);
+		long n = r.integer();
+		std::vector<long> locs;
+		long differ = 0;
 		for(long k = 0; k < n; k++)
-			interp_call(*I, r);
+		{
+			ICall c	   = read_icall(r);
+			double got = interp_call(*I, c);
+			sink	   = got;
+			if(c.w == "loc")
+				locs.push_back((long) (unsigned int) got);
+			Interpolation fresh(pristine);
+			double ref = interp_call(fresh, c);
+			if(!same_answer(got, ref))
+				differ++;
+		}
 		o.w("OK");
 		o.f(dom.size() > 0 ? dom[0] : std::nan(""));
 		o.f(dom.size() > 1 ? dom[1] : std::nan(""));
+		o.i((long) locs.size());
+		for(long j : locs)
+			o.i(j);
+		o.i(differ);
 		return;
 	}
 	else if(op == "i2calls" || op == "i2calls_t")
@@ -518,15 +564,22 @@ static void handler(vh::Reader& r, vh::Out& o)
 		}
 		std::vector<std::vector<double>> dom = I->domain;
 		long n								 = r.integer();
+		const Interpolation_2D pristine(*I);
+		long differ = 0;
 		for(long k = 0; k < n; k++)
 		{
 			double x = r.num(), y = r.num();
-			sink = I->Interpolate(x, y);
+			double got = I->Interpolate(x, y);
+			sink	   = got;
+			Interpolation_2D fresh(pristine);
+			if(!same_answer(got, fresh.Interpolate(x, y)))
+				differ++;
 		}
 		o.w("OK");
 		for(int a = 0; a < 2; a++)
 			for(int b = 0; b < 2; b++)
 				o.f((int) dom.size() > a && (int) dom[a].size() > b ? dom[a][b] : std::nan(""));
+		o.i(differ);
 		return;
 	}
 	else if(op == "fact_seq")
